@@ -1,6 +1,7 @@
 package main
 
 import (
+	"bytes"
 	"fmt"
 	"html"
 	"os"
@@ -133,8 +134,10 @@ func fullCheck(res *Result, r *fullRec) {
 		blocks, refs := commonmark.Parse(append([]byte(nil), src...))
 		rd := &commonmark.HTMLRenderer{ReferenceMap: refs}
 		for _, b := range blocks {
-			fmtRealSkel(&gotSkel, b.Source, int(b.StartOffset), &b.Block)
-			realLeafInl(&b.Block, int(b.StartOffset), &gotInl)
+			// positions are compared in the coordinates of the text after NUL replacement (every NUL before the block widens it by two bytes)
+			base := int(b.StartOffset) + 2*bytes.Count(src[:b.StartOffset], []byte{0})
+			fmtRealSkel(&gotSkel, b.Source, base, &b.Block)
+			realLeafInl(&b.Block, base, &gotInl)
 			gotHTML = append(gotHTML, string(rd.AppendBlock(nil, b)))
 		}
 	}()
